@@ -532,6 +532,25 @@ Proof.
     + change (entries_of (BShard cs)) with (entries_in cs). rewrite Hpb, Hp. reflexivity.
 Qed.
 
+(* the map-node contract on a reference-written shard after any history *)
+Corollary ref_history_contract size lg (Hperm : permitted size lg) (H : bytes -> bytes)
+  (H_wf : forall k, wf_bytes (H k) = true) (H_len : forall k, length (H k) = 8%nat) fuel ops t :
+  Forall (hop_ok H) ops -> hrun lg fuel ops = Ok t ->
+  let root := fst (serialize_node size HashMurmur3 (pad_len size) (BShard t)) in
+  fst (shard_length nofault root) = Ok (N.of_nat (length (iterate nofault root)))
+  /\ (forall k v, In (IYield k v) (map snd (iterate nofault root)) -> fst (lookup nofault root (H k) k) = Ok v)
+  /\ (forall k, (forall v, ~ In (IYield k v) (map snd (iterate nofault root))) -> fst (lookup nofault root (H k) k) = Err ENotFound).
+Proof.
+  intros Hops Hr root.
+  destruct (ref_history_read size lg Hperm H H_wf H_len fuel ops t Hops Hr) as (_ & Hm & Ha & Hi & Hl & _). fold root in Hm, Ha, Hi, Hl.
+  split; [|split].
+  - rewrite Hl. rewrite <- (map_length snd (iterate nofault root)), (Permutation_length Hi), map_length. reflexivity.
+  - intros k v Hin. apply (Permutation_in _ Hi) in Hin. apply in_map_iff in Hin. destruct Hin as (e & Ey & Hin).
+    inversion Ey; subst. apply Hm. exact Hin.
+  - intros k Hno. apply Ha. intros Hin. apply in_map_iff in Hin. destruct Hin as (e & <- & Hin).
+    apply (Hno (e_target e)). apply (Permutation_in _ (Permutation_sym Hi)). apply in_map_iff. exists e. split; [reflexivity|exact Hin].
+Qed.
+
 (* non-vacuity: a history with a fork, a replacement, a removal that collapses a sub-shard and a removal of an absent name *)
 Definition demo_ops : list hop :=
   [HSet (demo_entry [65] 1); HSet (demo_entry [65; 1] 3); HSet (demo_entry [65; 1; 2] 5); HSet (demo_entry [66] 2);
